@@ -373,6 +373,9 @@ class proxy( object ):
                         # zip( params, reader ) stops without exhausting reader); otherwise, there
                         # are responses left in flight: let the gateway be discarded.
                         for value in results:
+                            # The suspended generator still holds the gateway: release it first,
+                            # or discarding the gateway (eg. a Forward Close) waits for it forever.
+                            results.close()
                             raise
             return wrapper
 
